@@ -407,6 +407,18 @@ func (w *World) IPAMDump() []IPAMRec {
 	return out
 }
 
+// storeObjectsOutside counts the FloatingIP objects whose address the given configuration does not contain.
+func (w *World) storeObjectsOutside(pools []Pool) int {
+	fl, _ := w.Galaxy.GalaxyV1alpha1().FloatingIPs().List(context.TODO(), metav1.ListOptions{})
+	n := 0
+	for _, f := range fl.Items {
+		if ip, ok := ParseIPv4(f.Name); ok && !ConfHas(pools, ip) {
+			n++
+		}
+	}
+	return n
+}
+
 func tilde(s string) string {
 	if s == "" {
 		return "~"
